@@ -25,6 +25,7 @@ func init() {
 			"R2.3 the decision after the loop tests forbids before permits and returns Deny/Allow/Deny with the matching reasons; " +
 			"R2.4 eval.PolicyToNode conjoins every non-All scope clause and every condition (unless-bodies negated) with And only; " +
 			"R2.5 scope lowering tables (eval.scopeToNode, parser.scopeToNode) map each scope kind to the prescribed operator. " +
+			"R2.6 the lists a decision loop appends to are born empty inside the call that returns them (local cells whose every store is an own append or an empty list). " +
 			"Not decided: that each compiled evaluator computes the right boolean (C01/C04).",
 		Run: runC02,
 	})
@@ -538,6 +539,10 @@ func checkAuthLoop(p *Prog, r *Report, al *authLoop) {
 			}
 			extra = append(extra, p.pos(g.If.Pos()))
 		}
+		if fresh, why := accumulatorBirth(al.w, al.outer, s.app.Parent(), s.app.Call.Args[0]); true {
+			r.Check(fresh, "R2.6-fresh-accumulators", name+":"+s.kind+":"+describeVal(s.app.Call.Args[0]), spos, "the list appended to is a local that starts empty in this call",
+				"the "+s.kind+" list appended to is not born empty inside this call: "+why+" — a later decision then reports entries of an earlier one, or overwrites a Diagnostic an earlier caller still holds")
+		}
 		fields, _, ok := appendedStructFields(s.app)
 		if !ok {
 			r.Undec("R2.2-classification", name+":"+s.kind, spos, "appended element is not a struct literal the rule can read")
@@ -601,6 +606,19 @@ func checkAuthLoop(p *Prog, r *Report, al *authLoop) {
 					}
 					if _, isC := x.Val.(*ssa.Const); isC && fn == al.outer && al.loop == nil {
 						return // zero initialisation in the outer function
+					}
+					if sl, isSl := x.Val.(*ssa.Slice); isSl && fn == al.outer && al.loop == nil {
+						// make(T, 0, constant) is lowered to a fresh array sliced [:0]
+						if arr, isA := sl.X.(*ssa.Alloc); isA && sl.High != nil {
+							if n, isK := constInt(sl.High); isK && n == 0 && arr.Comment == "makeslice" {
+								return
+							}
+						}
+					}
+					if ms, isMk := x.Val.(*ssa.MakeSlice); isMk && fn == al.outer && al.loop == nil {
+						if n, isK := constInt(ms.Len); isK && n == 0 {
+							return // pre-sized but empty (make(T, 0, n)) in the outer function
+						}
 					}
 					resetOK = false
 					r.Viol("R2.2-classification", name+":accumulator-write", p.pos(x.Pos()), "an accumulator of the decision is overwritten by something other than its own append")
@@ -1614,4 +1632,96 @@ func uniqSorted(in []string) []string {
 	}
 	sort.Strings(out)
 	return out
+}
+
+// R2.6 fresh accumulators: the lists a decision loop appends to (reasons, errors) are born empty inside the call that
+// returns them. An accumulator kept in state that outlives the call (a field of a long-lived struct, a package variable,
+// a pooled buffer, even re-sliced to length zero) still holds — or shares storage with — what an earlier call handed out:
+// a later decision then reports reasons of an earlier one, or rewrites a Diagnostic the caller still holds.
+func accumulatorBirth(w *webs, outer, fn *ssa.Function, v ssa.Value) (fresh bool, why string) {
+	seen := map[ssa.Value]bool{}
+	var rec func(x ssa.Value, f *ssa.Function) (bool, string)
+	// cellFresh: every whole store into the cell at addr keeps it self-contained
+	cellFresh := func(addr ssa.Value, f *ssa.Function) (bool, string) {
+		base := baseOf(addr)
+		if fv, ok := base.(*ssa.FreeVar); ok {
+			// the captured variable's cell in the enclosing function
+			mc := makeClosureOf(f)
+			if mc == nil {
+				return false, "captured variable " + fv.Name() + " whose cell cannot be found"
+			}
+			for i, b := range f.FreeVars {
+				if b == fv && i < len(mc.Bindings) {
+					base = baseOf(mc.Bindings[i])
+				}
+			}
+		}
+		al, ok := base.(*ssa.Alloc)
+		if !ok {
+			return false, "it is kept in " + describeVal(addr) + ", which outlives the call"
+		}
+		_ = al
+		// everything ever stored into that cell is itself born empty here (its own appends included)
+		if w != nil {
+			cw := w.find(w.cellOf(addr))
+			for _, g := range withAnon(outer) {
+				bad := ""
+				forEachInstr(g, func(in ssa.Instruction) {
+					st, ok := in.(*ssa.Store)
+					if !ok || bad != "" || w.find(w.cellOf(st.Addr)) != cw {
+						return
+					}
+					if ok2, why := rec(st.Val, g); !ok2 {
+						bad = why
+					}
+				})
+				if bad != "" {
+					return false, bad
+				}
+			}
+		}
+		return true, ""
+	}
+	rec = func(x ssa.Value, f *ssa.Function) (bool, string) {
+		if seen[x] {
+			return true, ""
+		}
+		seen[x] = true
+		switch y := x.(type) {
+		case *ssa.Const:
+			return true, ""
+		case *ssa.Phi:
+			for _, e := range y.Edges {
+				if ok, w := rec(e, f); !ok {
+					return false, w
+				}
+			}
+			return true, ""
+		case *ssa.Call:
+			if isBuiltin(&y.Call, "append") {
+				return rec(y.Call.Args[0], f)
+			}
+			if y.Call.StaticCallee() != nil && (stdName(y.Call.StaticCallee()) == "slices.Clone" || stdName(y.Call.StaticCallee()) == "slices.Clip") {
+				return true, ""
+			}
+			return false, "it starts from the result of " + calleeName(y)
+		case *ssa.MakeSlice:
+			return true, ""
+		case *ssa.Slice:
+			return rec(y.X, f)
+		case *ssa.ChangeType:
+			return rec(y.X, f)
+		case *ssa.UnOp:
+			if y.Op == token.MUL {
+				return cellFresh(y.X, f)
+			}
+		case *ssa.Alloc:
+			// the array behind make(T, 0, constant)
+			if y.Comment == "makeslice" {
+				return true, ""
+			}
+		}
+		return false, "its origin (" + x.Name() + ") is not a local, empty list"
+	}
+	return rec(v, fn)
 }
